@@ -175,7 +175,7 @@ CLAIMED["C06"] = dict(
     text="Theorems: the loop model ends with a status or the deliberate lambda error for every oracle trace (penalty "
          "assertions unreachable for rho > 0; dt, rho, fact > 0). Per run: every raise in /repo is deliberate, converted by a "
          "handler, abstract or configuration validation; every assert is a shape/config check or a numeric assertion backed "
-         "by a named theorem; the converting handlers exist where they must. Partial: float overflow/NaN, Python type/index "
+         "by a named theorem; the converting handlers exist where they must. compute_tau (active-set rules) never takes the minimum of an empty selection, its assertion holds, its result is positive. Partial: float overflow/NaN, Python type/index "
          "errors in glue and native-code failures are only searched for by the campaign (which found and fixed F15, F16 and "
          "records F11, F13).",
     note=FACT_NOTE, technique=FACT_TECH, ref="4/C06")
